@@ -35,6 +35,18 @@ CHECKS = {
  "C01": ("exploration", "two-ended byte-stream monitor: the harness chooses the served bytes, accumulates what the caller received and applies 'clean EOF => digest and size match'",
          "≈165 k reads per quick run: blob.NewReader over scripted readers exhaustively for content lengths 0..20 (0..40 thorough: every truncation offset, a bit flip per byte, extra bytes, substitution, wrong stated size x 4 reader return styles x 9 buffer sequences x sha256/sha512 x size known/unknown, each with rewind and re-read), sampled to 70 KB; 2.5 k registry reads with wrong Content-Length, 0-4 mid-body drops and five resume behaviours, redirects, inline data, host concurrency 1/3/8; 400 corrupted layout blobs.",
          "Clean completion = the final error is exactly io.EOF (what io.ReadAll / io.Copy test). A read that only returns once the harness' 30 s context expired counts as 'neither completed nor failed' (logical criterion: context state at return).", "§3 C01"),
+ "C13": ("exploration", "independent well-formedness auditor over the target's raw storage and request log after real mod.Apply / regctl image mod runs",
+         "≈340 cases per quick run (3.4 k thorough): 56 fixed core cases, 250 seeded option programs of 0-5 options over all 37 option kinds, 32 regctl runs; sources with real tar layers (gzip / zstd / none), configs with matching diff_ids and history incl. empty_layer entries, single images, indexes, referrers, Docker and OCI types; targets same repo / other tag / other repo / other registry / layout. Every manifest written (target request log + closure of the returned reference) is audited from raw bytes: descriptor digest/size vs content, inline data, diff_ids vs uncompressed layers, history vs layers, index entries vs rewritten children, subject; source raw state and tag unchanged; no-op programs keep the digest; same program twice (in process, and across two regctl processes with SOURCE_DATE_EPOCH) gives one digest. Violations are minimised before they are reported.",
+         "Errors returned by mod.Apply are counted, not judged. Media-type vs actual compression mismatches are notes only. The cached-client family (shared manifest cache, S13) is attributed to C02.", "§3 C13"),
+ "C18": ("exploration", "full raw-state before/after comparison of both model registries around real `regsync once` / `regsync check` runs, selection computed by the harness' own filter model",
+         "500 generated configurations per quick run (6.5 k thorough), 1-3 consecutive runs each as source tags move: image / repository / registry entries, allow+deny lists (anchored sub-language), platform, media-type lists, three backup template forms, referrers, digest tags, fast-check / force-recursive, parallel 1-4; every selected tag must exist at the target with the source (or platform) digest and a complete closure (C03 oracle), every other tag / repository / manifest of the target and the whole source must be unchanged, backups must resolve and precede the overwrite in the target's log, check-only runs must cause no state-changing request.",
+         "The regex sub-language has no top-level alternation so that anchoring is unambiguous. Judged on raw registry state and request logs only; the package does not import regclient.", "§3 C18"),
+ "C19": ("exploration", "request-method monitor at model registries + recursive file-system snapshots around real `regbot once --dry-run` runs of generated Lua scripts",
+         "240 generated configurations per quick run (3 k thorough) of 1-5 scripts covering all 39 sandbox bindings (census of the binary's sandbox: an unknown binding makes the run inconclusive) in random control flow incl. pcall, error(), runtime errors; registries and layouts already holding images; monitors: no non-GET/HEAD request, no layout file created / modified / removed (path, mode, size, sha256, mtime), read-only scripts log the same results as in a normal run on the verified-unchanged world, a failing script stops and the others reach their end marker.",
+         "Each repository / layout is the target of at most one state-changing binding per configuration so that an effect can be attributed. image.exportTar writing its named output file is outside the statement (counted).", "§3 C19"),
+ "C20": ("exploration", "guard-directory snapshot monitor (lstat + sha256 + link target + mtime of everything outside the designated directory) plus strace write tracing, around hostile inputs",
+         "≈3.9 k cases per quick run (49 k thorough): regctl artifact get with hostile title annotations and hostile unpacked tars (with/without --strip-dirs), regctl image import and layout commands, archive.Extract, the tar reader, ImageImport, and 36 ocidir operations (through RegClient and OCIDir) with escaping digests / tags / descriptors and layouts whose index or manifests carry them; any create / modify / delete / mtime change outside the designated directory is a violation; reads outside are counted only.",
+         "Every hostile path, under every reading (absolute, relative to output dir / cwd / layout, NUL-cut, decoded separators), is asserted to resolve inside the guard tree below $VERIF_BIN before it is used; the check never names a path outside $VERIF_BIN. Runs without -race (file-system property).", "§3 C20"),
 }
 NOT_APPLICABLE = {}
 
